@@ -18,8 +18,24 @@ def configs(ctx):
     return cfgs + fam.gpu_configs(batch)
 
 
+def _worker_case(arg):
+    from vf import worker_clause as wc
+
+    k, order = arg
+    return [(m, c, msg, {"worker_clause": True, "k": k, "order": order}) for (m, c, msg) in wc.run_scenario(k, order)]
+
+
 def run(ctx):
     fam.run_family(ctx, PROP, configs(ctx), max_exec=ctx.pick(60_000, 2_000_000), budget_s=ctx.pick(150, 3000))
+    # worker-side clause: the real worker loop under every arrival order of the command and its input notices
+    from vf import worker_clause as wc
+
+    cases = [(k, order) for k, order, _ in wc.scenarios(ctx.pick(2, 3))]
+    for res in common.pmap(_worker_case, cases, chunksize=8):
+        for (m, c, msg, rp) in res:
+            ctx.add_violation(common.Violation({"monitor": m, "cause": c}, msg, rp))
+    ctx.coverage["worker_arrival_orders"] = len(cases)
+    ctx.coverage["traces_validated_against_impl"] += len(cases)
     ctx.assume(
         "cluster behind the Bridge is the SimCluster reference model; 'busy' is judged from what the controller can know: a worker is free once every publication of its sequence has been delivered",
         "batch bound %d; GPU subsets over <= 4 workers" % ctx.pick(2, 3),
@@ -27,4 +43,6 @@ def run(ctx):
 
 
 def replay(ctx, data):
+    if data.get("worker_clause"):
+        return [common.Violation({"monitor": m, "cause": c}, msg, rp) for (m, c, msg, rp) in _worker_case((data["k"], data["order"]))]
     return fam.replay(ctx, data, PROP)
